@@ -8,6 +8,7 @@ import (
 	"bytes"
 	"encoding/json"
 	"errors"
+	"sort"
 	"sync"
 	"sync/atomic"
 	"unsafe"
@@ -131,6 +132,27 @@ func (m *ValueMap) Load(key string) (value *VMValue, ok bool) {
 
 // Length returns the number of live keys. Deleted entries may linger in the
 // read/dirty maps as nil or expunged tombstones, so the raw map sizes cannot be used.
+// RangeSorted 按键的字典序遍历。Range 的顺序是 Go map 的遍历顺序，每次都不同；
+// 凡是结果会被脚本看到的地方(keys/values/items、打印、序列化、dir)都用这个，
+// 否则同一个种子下同一段脚本会因为遍历顺序不同而得到不同的结果
+func (m *ValueMap) RangeSorted(f func(key string, value *VMValue) bool) {
+	type pair struct {
+		key   string
+		value *VMValue
+	}
+	var items []pair
+	m.Range(func(key string, value *VMValue) bool {
+		items = append(items, pair{key, value})
+		return true
+	})
+	sort.Slice(items, func(i, j int) bool { return items[i].key < items[j].key })
+	for _, it := range items {
+		if !f(it.key, it.value) {
+			break
+		}
+	}
+}
+
 func (m *ValueMap) Length() int {
 	n := 0
 	m.Range(func(key string, value *VMValue) bool {
@@ -432,7 +454,7 @@ func (m *ValueMap) ToJSON() ([]byte, error) {
 func (m *ValueMap) toJSONRaw(save map[*VMValue]bool) ([]byte, error) {
 	var lst [][]byte
 	var err error
-	m.Range(func(key string, value *VMValue) bool {
+	m.RangeSorted(func(key string, value *VMValue) bool {
 		var jsonKey []byte
 		var jsonData []byte
 		jsonData, err = value.ToJSONRaw(save)
